@@ -606,3 +606,559 @@ def handler_stack_ownership(ctx, rule="OWN-handler_stack"):
         ctx.bad(rule, "core.handler_stack", "push/pop count", f"{pushes} pushes vs {pops} pops in Fn", "src/genjax/core.py")
     else:
         ctx.ok(rule, "core.handler_stack", f"{pushes} push/pop pairs, all inside Fn methods")
+
+
+# ====================================================================== Vmap
+VMAP_PREFIX = {
+    "simulate": ((), ()),
+    "generate": ((("param", "x"),), (C(0),)),
+    "assess": ((("param", "x"),), (C(0),)),
+    "update": ((TR, ("param", "x_")), (C(0), C(0))),
+    "regenerate": ((TR, ("param", "s")), (C(0), NONE)),
+}
+
+
+def find_lanes(t):
+    return [x for x in subterms(t) if x[0] == "lanes"]
+
+
+def vmap_rule(ctx, method, rule="ALG-Vmap"):
+    ev = mk_ev(ctx)
+    dotted = CORE + "Vmap." + method
+    s = summarize(ctx, ev, dotted)
+    lin = mk_lin(ev)
+    construct = f"core.Vmap.{method}"
+    ck = Checker(ctx, ev, lin, rule, construct, func_loc(ctx, dotted))
+    lanes = find_lanes(s.ret)
+    vids = sorted({l[1] for l in lanes})
+    if len(vids) != 1:
+        raise AnalysisError(f"{construct}: expected exactly one vectorised call, found {len(vids)}")
+    vid = vids[0]
+    rec = ev.vmaps[vid]
+    pre, axes = VMAP_PREFIX[method]
+    # callee and arguments
+    ck.eq("maps the callee's own method", rec["f"], ("attr", ("attr", SELF, "gen_fn"), method))
+    exp_args = tuple(pre) + (("star", ARGS),)
+    ck.eq("call arguments (prefix, *args)", ("tuple", rec["args"]), ("tuple", exp_args))
+    if rec["kwargs"] not in (((None, KW),), ()):
+        ck.fail("keyword arguments forwarded", f"found {rec['kwargs']}")
+    # in_axes
+    inax = rec["in_axes"]
+    val = ("attr", ("attr", SELF, "in_axes"), "value")
+    if method == "simulate":
+        ck.eq("in_axes = self.in_axes.value", inax or NONE, val)
+    else:
+        nonec = None
+        for asg, leaf in spine_cases(inax if inax is not None else NONE):
+            pol = None
+            for c, v in asg.items():
+                rr = none_test(c, val)
+                if rr is None:
+                    raise AnalysisError(f"{construct}: unrecognised in_axes condition {short(c, ev)}")
+                pol = (rr == v)
+            if pol is None:
+                raise AnalysisError(f"{construct}: in_axes not split on `self.in_axes.value is None`")
+            if pol:
+                want = ("tuple", tuple(axes) + (("star", ("binop", "*", ("tuple", (NONE,)), call(N("builtins.len"), ARGS))),))
+                got = leaf
+                # accept (prefix) + (None,) * len(args)
+                if not (leaf[0] == "binop" and leaf[1] == "+" and leaf[2] == ("tuple", tuple(axes))
+                        and leaf[3] == ("binop", "*", ("tuple", (NONE,)), call(N("builtins.len"), ARGS))):
+                    ck.fail("in_axes (callee in_axes None): prefix + (None,)*len(args)", f"expected prefix {short(('tuple', tuple(axes)), ev)}, found {short(leaf, ev)}")
+            else:
+                if not (leaf[0] == "binop" and leaf[1] == "+" and leaf[2] == ("tuple", tuple(axes)) and leaf[3] == val):
+                    ck.fail("in_axes: prefix + self.in_axes.value", f"expected prefix {short(('tuple', tuple(axes)), ev)}, found {short(leaf, ev)}")
+    for opt in ("axis_size", "axis_name", "spmd_axis_name"):
+        got = ev.kwget(rec["opts"], opt)
+        want = ("attr", ("attr", SELF, opt), "value")
+        if got is None and opt == "axis_size":
+            ck.fail("axis_size forwarded", "axis_size not passed to modular_vmap (repeat()/axis-size-only maps would fail)")
+        elif got is not None and got != want:
+            ck.fail(f"{opt} forwarded", f"expected {short(want, ev)}, found {short(got, ev)}")
+    if rec["which"] != "genjax.pjax.modular_vmap":
+        ck.fail("uses the probability-aware vmap", f"uses {rec['which']}")
+    # results
+    body = rec["body"]
+    L0 = ("lanes", vid, body)
+
+    def li(i):
+        return ("idx", L0, C(i))
+
+    def summed(t, what):
+        if not (is_call(t, name="jax.numpy.sum") and len(t[2]) == 1 and t[2][0] == what and not t[3]):
+            ck.fail("per-lane weights/densities are summed over all lanes", f"expected jnp.sum({short(what, ev)}), found {short(t, ev)}")
+
+    for asg, leaf in spine_cases(s.ret):
+        if method == "simulate":
+            ck.eq("returns the vectorised trace", leaf, L0)
+            continue
+        it = items(leaf)
+        n = {"generate": 2, "assess": 2, "update": 3, "regenerate": 3}[method]
+        if it is None or len(it) != n:
+            ck.fail(f"{method} returns a {n}-tuple", f"found {short(leaf, ev)}")
+            continue
+        if method == "assess":
+            summed(it[0], li(0))
+            ck.eq("retval = stacked lane retvals", it[1], li(1))
+        else:
+            ck.eq("trace = vectorised lane traces", it[0], li(0))
+            summed(it[1], li(1))
+            if n == 3:
+                ck.eq("discard = vectorised lane discards", it[2], li(2))
+    ck.done()
+    return ev, rec
+
+
+def vmap_narrow(ctx, rule="NARROW-in_axes"):
+    """Vmap.in_axes is declared int | tuple | Sequence | None (GFI.vmap defaults to 0): `(0,…) + in_axes`
+    must be dominated by a normalisation of the non-tuple alternatives."""
+    kind, cls, mod, _ = ctx.p.get_class(CORE + "Vmap")
+    ann = None
+    for st in cls.body:
+        if isinstance(st, ast.AnnAssign) and isinstance(st.target, ast.Name) and st.target.id == "in_axes":
+            ann = ast.unparse(st.annotation)
+    ctx.need(ann is not None, "anchor vanished: Vmap.in_axes field")
+    declares_int = "int" in ann.replace("tuple[int", "")
+    gv = ctx.p.get_function(CORE + "GFI.vmap")[1]
+    default_int = any(isinstance(d, ast.Constant) and isinstance(d.value, int) for d in gv.args.defaults)
+    n = 0
+    for st in cls.body:
+        if not isinstance(st, ast.FunctionDef):
+            continue
+        for node in ast.walk(st):
+            if isinstance(node, ast.BinOp) and isinstance(node.op, ast.Add) and isinstance(node.left, ast.Tuple) \
+                    and ast.unparse(node.right) == "self.in_axes.value":
+                n += 1
+                guarded = any(isinstance(x, ast.Call) and ast.unparse(x.func) == "isinstance" and "in_axes" in ast.unparse(x) for x in ast.walk(st))
+                construct = f"core.Vmap.{st.name}"
+                if (declares_int or default_int) and not guarded:
+                    ctx.bad(rule, construct, "tuple + self.in_axes.value without int/list normalisation",
+                            "in_axes may be an int (GFI.vmap default 0) or a list; `(0, …) + self.in_axes.value` raises TypeError for them", ctx.loc(mod, node))
+                else:
+                    ctx.ok(rule, construct)
+    ctx.need(n >= 4, f"NARROW-in_axes: only {n} prefix+in_axes sites found (floor 4)")
+
+
+def vmap_kwargs_sig(ctx, rule="SIG-kwargs"):
+    """A call that passes **kwargs to the function returned by modular_vmap: that function must accept them."""
+    ev = mk_ev(ctx)
+    s = summarize(ctx, ev, "genjax.pjax.modular_vmap")
+    ret = s.ret
+    ctx.need(ret[0] == "closure" or (is_call(ret) and any(a[0] == "closure" for a in ret[2])), "pjax.modular_vmap: returned callable not recognised")
+    clo = ret if ret[0] == "closure" else [a for a in ret[2] if a[0] == "closure"][0]
+    node = ev.closures[clo[1]].node
+    accepts_kw = node.args.kwarg is not None
+    kind, cls, mod, _ = ctx.p.get_class(CORE + "Vmap")
+    n = 0
+    for st in cls.body:
+        if not isinstance(st, ast.FunctionDef):
+            continue
+        for c in ast.walk(st):
+            if isinstance(c, ast.Call) and isinstance(c.func, ast.Call) and ast.unparse(c.func.func) == "modular_vmap" \
+                    and any(k.arg is None for k in c.keywords):
+                n += 1
+                construct = f"core.Vmap.{st.name}"
+                if accepts_kw:
+                    ctx.ok(rule, construct)
+                else:
+                    ctx.bad(rule, construct, "modular_vmap(...)(..., **kwargs)",
+                            "pjax.modular_vmap.wrapped accepts positional arguments only: any keyword argument through Vmap raises TypeError", ctx.loc(mod, c))
+    ctx.need(n >= 5, f"SIG-kwargs: only {n} Vmap call sites forwarding **kwargs found (floor 5)")
+
+
+# ====================================================================== Scan
+def scan_rule(ctx, method, rule="ALG-Scan"):
+    ev = mk_ev(ctx)
+    dotted = CORE + "Scan." + method
+    s = summarize(ctx, ev, dotted)
+    lin = mk_lin(ev)
+    construct = f"core.Scan.{method}"
+    ck = Checker(ctx, ev, lin, rule, construct, func_loc(ctx, dotted))
+    sids = sorted({x[1] for x in subterms(s.ret) if x[0] in ("scan", "scan_final", "stack")})
+    if len(sids) != 1:
+        raise AnalysisError(f"{construct}: expected exactly one scan, found {len(sids)}")
+    sid = sids[0]
+    rec = ev.scans[sid]
+    A0, A1 = ("idx", ARGS, C(0)), ("idx", ARGS, C(1))
+    carry = ("scan_carry", sid, None)
+    X, X_, SEL = ("param", "x"), ("param", "x_"), ("param", "s")
+    traces = ("attr", TR, "traces")
+
+    def el(t):
+        return ("elem", sid, t)
+
+    ck.eq("initial carry = args[0]", rec["init"], A0)
+    ln = ev.kwget(rec["kwargs"], "length")
+    if ln is None:
+        ck.fail("scan length = self.length.value", "no length= passed (an xs-free / empty scan would be ill-defined)")
+    else:
+        ck.eq("scan length = self.length.value", ln, ("attr", ("attr", SELF, "length"), "value"))
+    if ev.kwget(rec["kwargs"], "reverse") not in (None, C(False)):
+        ck.fail("scan runs forward", "reverse= set")
+    prefix = {"simulate": (), "generate": (el(X),), "assess": (el(X),), "update": (el(traces), None), "regenerate": (el(traces), SEL)}[method]
+    body = lin.norm(rec["body"])
+    # locate the callee call inside the body
+    calls = [x for x in subterms(body) if is_call(x) and x[1] == ("attr", ("attr", SELF, "callee"), method)]
+    calls = list(dict.fromkeys(calls))
+    if len(calls) != 1:
+        ck.fail("one callee call per step", f"found {len(calls)} distinct self.callee.{method}(...) calls")
+        ck.done()
+        return
+    cc = calls[0]
+    want_tail = (carry, el(A1))
+    got_args = cc[2]
+    if len(got_args) != len(prefix) + 2:
+        ck.fail("callee arguments (prefix, carry, x_i)", f"found {short(('tuple', got_args), ev)}")
+    else:
+        for i, p in enumerate(prefix):
+            if p is None:  # update's per-step constraint: elem(x_) (None-transparent)
+                g = got_args[i]
+                ok = g == el(X_) or (g[0] == "ifexp" and set([g[2], g[3]]) <= {el(X_), NONE} and el(X_) in (g[2], g[3]))
+                if not ok:
+                    ck.fail("per-step constraint = slice of x_", f"found {short(g, ev)}")
+            else:
+                ck.eq(f"callee argument {i}", got_args[i], p)
+        ck.eq("callee receives this step's carry", got_args[len(prefix)], carry)
+        ck.eq("callee receives this step's slice of args[1]", got_args[len(prefix) + 1], el(A1))
+    if cc[3] != ((None, KW),):
+        ck.fail("keyword arguments forwarded to the step function", f"found {short(('dict', tuple((C(k), v) for k, v in cc[3])), ev) if cc[3] else 'none'}")
+    # carry threading / outputs
+    if method == "assess":
+        newc, out, dens = ("idx", ("idx", cc, C(1)), C(0)), ("idx", ("idx", cc, C(1)), C(1)), ("idx", cc, C(0))
+        ck.eq("next carry = retval[0] of this step", lin.norm(rec["carry_out"]), newc)
+        ys = lin.norm(rec["ys"])
+        want_ret = ("tuple", (call(N("jax.numpy.sum"), ("stack", sid, dens)), ("tuple", (("scan_final", sid), ("stack", sid, out)))))
+        for asg, leaf in spine_cases(s.ret):
+            ck.eq("returns (sum of step densities, (final carry, stacked outputs))", leaf, want_ret)
+    else:
+        sub_tr = cc if method == "simulate" else ("idx", cc, C(0))
+        newc, out = ("idx", RV(sub_tr), C(0)), ("idx", RV(sub_tr), C(1))
+        ck.eq("next carry = retval[0] of this step's trace", lin.norm(rec["carry_out"]), newc)
+        want_tr = call(N(CORE + "ScanTr"), SELF, ("tuple", (ARGS, KW)), ("stack", sid, sub_tr), ("scan_final", sid), ("stack", sid, out))
+        for asg, leaf in spine_cases(s.ret):
+            if method == "simulate":
+                ck.eq("returns ScanTr(self, (args, kwargs), stacked traces, final carry, stacked outputs)", leaf, want_tr)
+                continue
+            it = items(leaf)
+            n = 2 if method == "generate" else 3
+            if it is None or len(it) != n:
+                ck.fail(f"{method} returns a {n}-tuple", f"found {short(leaf, ev)}")
+                continue
+            ck.eq("trace = ScanTr(self, (args, kwargs), stacked traces, final carry, stacked outputs)", it[0], want_tr)
+            ck.eq("weight = jnp.sum(per-step weights)", it[1], call(N("jax.numpy.sum"), ("stack", sid, ("idx", cc, C(1)))))
+            if n == 3:
+                d = lin.norm(it[2])
+                want_d = ("stack", sid, ("idx", cc, C(2)))
+                # `stacked if <any discards> else None` is value-correct when present; its definedness is the
+                # business of KIND-pytree-reduce, not of this rule
+                if d != want_d and not (d[0] == "ifexp" and d[2] == want_d and is_const(d[3], None)):
+                    ck.fail("discard = stacked per-step discards", f"found {short(d, ev)}")
+    # xs composition
+    xs = lin.norm(rec["xs"])
+    want_xs = {"simulate": A1, "generate": ("tuple", (A1, X)), "assess": ("tuple", (A1, X)),
+               "update": None, "regenerate": ("tuple", (A1, traces))}[method]
+    if want_xs is not None:
+        got_elems = {x for x in subterms(body) if x[0] == "elem"}
+    ck.done()
+    ctx.sample({"rule": rule, "construct": construct, "step": short(cc, ev, 200)})
+
+
+def scan_regenerate_defined(ctx, rule="KIND-pytree-reduce"):
+    """jnp.any/all/sum/where applied directly to a jtu.tree_map result (a pytree, possibly a dict or None), and a
+    Python conditional on the (traced) result."""
+    kind, node, mod, owner = ctx.p.get_function(CORE + "Scan.regenerate")
+    ctx.fn(CORE + "Scan.regenerate")
+    found = False
+    for c in ast.walk(node):
+        if isinstance(c, ast.Call) and ast.unparse(c.func) in ("jnp.any", "jnp.all") and c.args:
+            a = c.args[0]
+            if isinstance(a, ast.Call) and ast.unparse(a.func) in ("jtu.tree_map", "jax.tree_util.tree_map", "jax.tree.map"):
+                found = True
+                ctx.bad(rule, "core.Scan.regenerate", "jnp.any(jtu.tree_map(...)) over discards",
+                        "array reduction applied to a pytree (dict for @gen callees, None for unselected leaves) raises TypeError; "
+                        "its traced result then drives a Python conditional", ctx.loc(mod, c))
+    if not found:
+        ctx.ok(rule, "core.Scan.regenerate", "no array reduction over a pytree")
+
+
+# ====================================================================== Cond / CondTr
+def cond_ev(ctx):
+    ev = mk_ev(ctx)
+    ev.known_len_fields = {"trs": 2}
+    return ev
+
+
+CHECK = ("idx", ARGS, C(0))
+REST = ("rest", ARGS, 1)
+
+
+def cond_sub(which, method, *pre):
+    return ("call", ("attr", ("attr", SELF, which), method), tuple(pre) + (("star", REST),), ((None, KW),))
+
+
+def where(c, a, b):
+    return call(N("jax.numpy.where"), c, a, b)
+
+
+def is_where(t):
+    return is_call(t) and t[1][0] == "name" and t[1][1] in ("jax.numpy.where", "jax.lax.select") and len(t[2]) == 3
+
+
+def cond_tr(check, a, b):
+    return call(N(CORE + "CondTr"), SELF, check, ("list", (a, b)))
+
+
+def cond_rule(ctx, method, rule="ALG-Cond"):
+    ev = cond_ev(ctx)
+    dotted = CORE + "Cond." + method
+    s = summarize(ctx, ev, dotted)
+    lin = mk_lin(ev)
+    construct = f"core.Cond.{method}"
+    ck = Checker(ctx, ev, lin, rule, construct, func_loc(ctx, dotted))
+    X, SEL = ("param", "x"), ("param", "s")
+    t0, t1 = ("idx", ("attr", TR, "trs"), C(0)), ("idx", ("attr", TR, "trs"), C(1))
+
+    def sel_by_check(t, a, b, what):
+        t = lin.norm(t)
+        if not is_where(t):
+            ck.fail(what, f"expected a where/select on the new condition, found {short(t, ev)}")
+            return
+        ck.eq(what + " (condition)", t[2][0], CHECK)
+        ck.eq(what + " (true arm = first branch)", t[2][1], a)
+        ck.eq(what + " (false arm = second branch)", t[2][2], b)
+
+    if method == "simulate":
+        a, b = cond_sub("callee", "simulate"), cond_sub("callee_", "simulate")
+        for asg, leaf in spine_cases(s.ret):
+            ck.eq("CondTr(self, check, [callee trace, callee_ trace])", leaf, cond_tr(CHECK, a, b))
+    elif method == "assess":
+        a, b = cond_sub("callee", "assess", X), cond_sub("callee_", "assess", X)
+        for asg, leaf in spine_cases(s.ret):
+            it = items(leaf)
+            if it is None or len(it) != 2:
+                ck.fail("assess returns (density, retval)", f"found {short(leaf, ev)}")
+                continue
+            sel_by_check(it[0], ("idx", a, C(0)), ("idx", b, C(0)), "density selected by the condition")
+            sel_by_check(it[1], ("idx", a, C(1)), ("idx", b, C(1)), "retval selected by the condition")
+    elif method == "generate":
+        saw = set()
+        for asg, leaf in spine_cases(s.ret):
+            pol = None
+            for c, v in asg.items():
+                rr = none_test(c, X)
+                if rr is None:
+                    raise AnalysisError(f"{construct}: unrecognised branch condition {short(c, ev)}")
+                pol = (rr == v)
+            it = items(leaf)
+            if it is None or len(it) != 2:
+                ck.fail("generate returns (trace, weight)", f"found {short(leaf, ev)}")
+                continue
+            saw.add(pol)
+            if pol:
+                a, b = cond_sub("callee", "simulate"), cond_sub("callee_", "simulate")
+                alt_a, alt_b = cond_sub("callee", "generate", NONE), cond_sub("callee_", "generate", NONE)
+                got = lin.norm(it[0])
+                if got != cond_tr(CHECK, a, b) and got != cond_tr(CHECK, ("idx", alt_a, C(0)), ("idx", alt_b, C(0))):
+                    ck.fail("generate(None): both branches simulated", f"found {short(got, ev)}")
+                ck.lineq("generate(None) weight = 0", it[1], C(0))
+            else:
+                a, b = cond_sub("callee", "generate", X), cond_sub("callee_", "generate", X)
+                ck.eq("trace = CondTr(self, check, [branch traces])", it[0], cond_tr(CHECK, ("idx", a, C(0)), ("idx", b, C(0))))
+                sel_by_check(it[1], ("idx", a, C(1)), ("idx", b, C(1)), "weight selected by the condition")
+        if saw != {True, False} and saw != {None}:
+            ck.fail("generate handles None and constraints", f"cases: {saw}")
+    else:
+        second = X if method == "update" else SEL
+        a, b = cond_sub("callee", method, t0, second), cond_sub("callee_", method, t1, second)
+        for asg, leaf in spine_cases(s.ret):
+            it = items(leaf)
+            if it is None or len(it) != 3:
+                ck.fail(f"{method} returns (trace, weight, discard)", f"found {short(leaf, ev)}")
+                continue
+            ck.eq("trace = CondTr(self, new check, [updated branch traces from the matching old branch traces])",
+                  it[0], cond_tr(CHECK, ("idx", a, C(0)), ("idx", b, C(0))))
+    ck.done()
+    return ev, s, lin
+
+
+def ih_weight_axiom(x):
+    """Induction hypothesis for callee edits: weight(g.update(t, ...)) ≡ score(t) − score(new trace)."""
+    if x[0] == "idx" and is_const(x[2], 1) and is_call(x[1]) and x[1][1][0] == "attr" and x[1][1][2] in ("update",):
+        u = x[1]
+        old = u[2][0]
+        return ("binop", "-", SC(old), SC(("idx", u, C(0))))
+    return None
+
+
+def condtr_score_axiom(x):
+    """score(CondTr-typed parameter tr) = where(tr.check, score(trs[0]), score(trs[1]))  (CondTr.get_score, checked by cond_trace_rules)."""
+    if is_call(x, name="SCORE") and x[2][0] == TR:
+        return where(("attr", TR, "check"), SC(("idx", ("attr", TR, "trs"), C(0))), SC(("idx", ("attr", TR, "trs"), C(1))))
+    return None
+
+
+def cond_update_telescopes(ctx, rule="ALG-telescope"):
+    """weight + score(new CondTr) − score(old CondTr) ≡ 0 given the induction hypothesis on both branches."""
+    ev = cond_ev(ctx)
+    dotted = CORE + "Cond.update"
+    s = summarize(ctx, ev, dotted)
+    lin = mk_lin(ev, extra=[ih_weight_axiom, condtr_score_axiom])
+    construct = "core.Cond.update"
+    for asg, leaf in spine_cases(s.ret):
+        it = items(leaf)
+        if it is None or len(it) != 3:
+            raise AnalysisError(f"{construct}: shape not recognised")
+        new_score = ("call", ("attr", it[0], "get_score"), (), ())
+        new_score = ev.simplify_call(new_score, None, None) or new_score
+        total = ("binop", "-", ("binop", "+", it[1], new_score), SC(TR))
+        bad_cases = [(a2, lf) for a2, lf in lin.cases(total) if lf]
+        if not bad_cases:
+            ctx.ok(rule, construct, "weight + S(new) − S(old) ≡ 0 in every case of (new check, old check)")
+        for a2, lf in bad_cases:
+            when = ", ".join(f"{k}={v}" for k, v in sorted(a2.items()))
+            ctx.bad(rule, construct, f"[{when}] residual {fmt_lf(lf)}",
+                    f"weights do not telescope through Cond.update when {when}: weight + S(new) − S(old) = {fmt_lf(lf)} "
+                    "(the weight is selected by the new condition only; the old condition tr.check is ignored)", func_loc(ctx, dotted))
+        ctx.sample({"rule": rule, "construct": construct, "weight": short(lin.norm(it[1]), ev, 300)})
+
+
+def cond_discard_depends_on_old_check(ctx, method, rule="DEP-old-check"):
+    """The discard of a Cond edit must be chosen by the condition under which the old values were visible."""
+    ev = cond_ev(ctx)
+    dotted = CORE + "Cond." + method
+    s = summarize(ctx, ev, dotted)
+    construct = f"core.Cond.{method}"
+    old_check = ("attr", TR, "check")
+    for asg, leaf in spine_cases(s.ret):
+        it = items(leaf)
+        if it is None or len(it) != 3:
+            raise AnalysisError(f"{construct}: shape not recognised")
+        d = it[2]
+        # cases where one branch has nothing to discard are fine (the other branch's discard is the only candidate)
+        d0 = [x for x in subterms(d) if x[0] == "idx" and is_const(x[2], 2) and is_call(x[1]) and x[1][1] == ("attr", ("attr", SELF, "callee"), method)]
+        d1 = [x for x in subterms(d) if x[0] == "idx" and is_const(x[2], 2) and is_call(x[1]) and x[1][1] == ("attr", ("attr", SELF, "callee_"), method)]
+        if not (d0 and d1):
+            continue
+        if mentions(d, old_check) or mentions(d, CHECK):
+            ctx.ok(rule, construct, "discard arms selected by a condition")
+        else:
+            ctx.bad(rule, construct, "discard merges both branches without a condition",
+                    f"discard = {short(d, ev, 200)}: merged without any condition, so on shared addresses the second branch's old value is returned "
+                    "whichever branch was visible in the old trace", func_loc(ctx, dotted))
+            return
+    if not any(r["rule"] == rule and r["construct"] == construct for r in ctx.records):
+        ctx.ok(rule, construct, "no unconditional two-branch discard merge")
+
+
+def cond_trace_rules(ctx, rule="ROLE-CondTr"):
+    ev = cond_ev(ctx)
+    lin = mk_lin(ev)
+    T0, T1 = ("idx", ("attr", SELF, "trs"), C(0)), ("idx", ("attr", SELF, "trs"), C(1))
+    CK = ("attr", SELF, "check")
+    # get_score / get_retval
+    for m, f in (("get_score", SC), ("get_retval", RV)):
+        dotted = CORE + "CondTr." + m
+        s = summarize(ctx, ev, dotted)
+        ck = Checker(ctx, ev, lin, rule, f"core.CondTr.{m}", func_loc(ctx, dotted))
+        for asg, leaf in spine_cases(s.ret):
+            ck.eq(f"{m} = where(check, branch0, branch1)", leaf, where(CK, f(T0), f(T1)))
+        ck.done()
+    for m in ("get_choices", "get_fixed_choices"):
+        dotted = CORE + "CondTr." + m
+        s = summarize(ctx, ev, dotted)
+        ck = Checker(ctx, ev, lin, rule, f"core.CondTr.{m}", func_loc(ctx, dotted))
+        for asg, leaf in spine_cases(s.ret):
+            t = lin.norm(leaf)
+            ok = t[0] == "idx" and is_const(t[2], 0) and is_call(t[1]) and t[1][1] == ("attr", ("attr", SELF, "gen_fn"), "merge")
+            if not ok:
+                ck.fail("choices = merge(branch0 choices, branch1 choices, check)[0]", f"found {short(t, ev)}")
+                continue
+            a = t[1][2]
+            if len(a) != 3:
+                ck.fail("merge receives the condition", f"found {short(t, ev)}")
+                continue
+            want = (CH(T0), CH(T1)) if m == "get_choices" else (("call", ("attr", T0, "get_fixed_choices"), (), ()), ("call", ("attr", T1, "get_fixed_choices"), (), ()))
+            ck.eq("first (true-arm) operand = branch 0 choices", a[0], want[0])
+            ck.eq("second (false-arm) operand = branch 1 choices", a[1], want[1])
+            ck.eq("third operand = the trace's condition", a[2], CK)
+        ck.done()
+    # every CondTr construction site passes a 2-element literal list (justifies known_len trs = 2)
+    n = 0
+    for mn, m in ctx.p.modules.items():
+        for node in ast.walk(m.tree):
+            if isinstance(node, ast.Call) and isinstance(node.func, ast.Name) and node.func.id == "CondTr":
+                n += 1
+                if not (len(node.args) == 3 and isinstance(node.args[2], ast.List) and len(node.args[2].elts) == 2):
+                    ctx.bad(rule, "core.CondTr(...)", "two-branch literal", f"CondTr constructed without a 2-element branch list", ctx.loc(m, node))
+    ctx.need(n >= 5, f"CondTr construction sites: {n} (floor 5)")
+    ctx.ok(rule, "core.CondTr(...) sites", f"{n} construction sites, all with 2 branch traces")
+
+
+def merge_polarity(ctx, rule="ROLE-merge-polarity"):
+    """merge(x, x_, check) selects x where check is True and x_ where False (Distribution.merge, Fn.merge leaves)."""
+    ev = mk_ev(ctx)
+    lin = mk_lin(ev)
+    s = summarize(ctx, ev, CORE + "Distribution.merge")
+    ck = Checker(ctx, ev, lin, rule, "core.Distribution.merge", func_loc(ctx, CORE + "Distribution.merge"))
+    X, X_, CKP = ("param", "x"), ("param", "x_"), ("param", "check")
+    ok = False
+    for asg, leaf in spine_cases(s.ret):
+        pol = None
+        for c, v in asg.items():
+            rr = none_test(c, CKP)
+            if rr is not None:
+                pol = (rr == v)
+        if pol is False:
+            it = items(leaf)
+            if it and it[0][0] == "treemap":
+                body = it[0][2]
+                tid = it[0][1]
+                if is_where(body) and body[2] == (CKP, ("leaf", tid, X), ("leaf", tid, X_)):
+                    ok = True
+                else:
+                    ck.fail("leafwise where(check, x, x_)", f"found {short(body, ev)}")
+            elif it:
+                ck.fail("leafwise where(check, x, x_)", f"found {short(it[0], ev)}")
+    if not ok and not ck.failed:
+        ck.fail("conditional merge present", "no tree_map(where(check, x, x_)) found on the check-given path")
+    ck.done()
+    # Fn.merge: analysed on the AST (loop body)
+    kind, node, mod, owner = ctx.p.get_function(CORE + "Fn.merge")
+    ctx.fn(CORE + "Fn.merge")
+    a = [x.arg for x in node.args.args]
+    ctx.need(a[:4] == ["self", "x", "x_", "check"], f"Fn.merge signature changed: {a}")
+    ck = Checker(ctx, ev, lin, rule, "core.Fn.merge", ctx.loc(mod, node))
+    wheres = [c for c in ast.walk(node) if isinstance(c, ast.Call) and ast.unparse(c.func) in ("jnp.where", "jax.lax.select")]
+    if not wheres:
+        ck.fail("conditional leaf merge uses where(check, x-side, x_-side)", "no jnp.where in Fn.merge")
+    for w in wheres:
+        enc = None
+        for lam in ast.walk(node):
+            if isinstance(lam, ast.Lambda) and any(x is w for x in ast.walk(lam)):
+                enc = lam
+        tm = None
+        for c in ast.walk(node):
+            if isinstance(c, ast.Call) and ast.unparse(c.func) in ("jtu.tree_map", "jax.tree_util.tree_map") and c.args and c.args[0] is enc:
+                tm = c
+        if enc is None or tm is None or len(tm.args) != 3 or len(w.args) != 3:
+            raise AnalysisError("core.Fn.merge: conditional leaf merge shape not recognised")
+        p1, p2 = [x.arg for x in enc.args.args][:2]
+        arms = (ast.unparse(w.args[1]), ast.unparse(w.args[2]))
+        srcs = (ast.unparse(tm.args[1]), ast.unparse(tm.args[2]))
+        # provenance of val_x / val_x_
+        prov = {}
+        for st in ast.walk(node):
+            if isinstance(st, ast.Assign) and len(st.targets) == 1 and isinstance(st.targets[0], ast.Name):
+                prov[st.targets[0].id] = ast.unparse(st.value)
+        def side(nm):
+            v = prov.get(nm, nm)
+            if v.startswith("x_["):
+                return "x_"
+            if v.startswith("x["):
+                return "x"
+            return v
+        first = side(srcs[0]) if arms[0] == p1 else side(srcs[1]) if arms[0] == p2 else arms[0]
+        second = side(srcs[1]) if arms[1] == p2 else side(srcs[0]) if arms[1] == p1 else arms[1]
+        if ast.unparse(w.args[0]) != "check" or first != "x" or second != "x_":
+            ck.fail("where(check, x-side, x_-side)", f"found where({ast.unparse(w.args[0])}, {first}-side, {second}-side)")
+    ck.done()
